@@ -58,6 +58,7 @@ class Check:
         self.t0 = time.time()
         self.scratch = tempfile.mkdtemp(prefix="verif-%s-" % pid, dir=os.environ.get("TMPDIR", "/tmp"))
         self.harness = None
+        self.harnesses = {}
         self.states = 0
         self.transitions = 0
         self.traces = 0            # events of real-code behaviour validated by TLC
@@ -80,37 +81,52 @@ class Check:
     def cleanup(self):
         shutil.rmtree(self.scratch, ignore_errors=True)
 
-    def build_harness(self):
-        if self.harness:
-            return self.harness
-        hdir = os.path.join(VERIF, "harness")
+    def build_harness(self, race=False):
+        """Builds the harness against REPO's current working tree with -tags verif (in a private copy of the
+        harness sources, so that the module's `replace` can point at REPO)."""
+        key = "race" if race else "plain"
+        if self.harnesses.get(key):
+            return self.harnesses[key]
+        src = os.path.join(self.scratch, "hsrc")
+        if not os.path.isdir(src):
+            os.makedirs(src)
+            for f in os.listdir(os.path.join(VERIF, "harness")):
+                if f.endswith(".go") or f == "go.mod":
+                    shutil.copy(os.path.join(VERIF, "harness", f), src)
+            gm = open(os.path.join(src, "go.mod")).read().replace("=> /repo", "=> " + REPO)
+            open(os.path.join(src, "go.mod"), "w").write(gm)
+            shutil.copy(os.path.join(REPO, "go.sum"), os.path.join(src, "go.sum"))
         env = dict(os.environ, **GOENV)
-        shutil.copy(os.path.join(REPO, "go.sum"), os.path.join(hdir, "go.sum"))
-        out = os.path.join(self.scratch, "harness")
-        p = subprocess.run(["go", "build", "-tags", "verif", "-o", out, "."], cwd=hdir, env=env,
-                           capture_output=True, text=True)
+        out = os.path.join(self.scratch, "harness-" + key)
+        cmd = ["go", "build", "-tags", "verif"] + (["-race"] if race else []) + ["-o", out, "."]
+        p = subprocess.run(cmd, cwd=src, env=env, capture_output=True, text=True)
         if p.returncode != 0:
             raise ToolError("harness does not build against %s with -tags verif:\n%s" % (REPO, p.stderr[-3000:]))
-        self.harness = out
+        self.harnesses[key] = out
+        self.harness = self.harnesses.get("plain")
         return out
 
-    def run_worker(self, driver, args, out_name=None, timeout=1800, seed=None, mem_kb=8000000):
+    def run_worker(self, driver, args, out_name=None, timeout=1800, seed=None, mem_kb=8000000, race=False, max_aborts=30):
         """Runs an isolated-worker driver (writes a flushed "begin" line before each case). If the worker
         process dies, the case it was executing is recorded with outcome "abort" and the worker is
         restarted behind it. Returns (trace path, stats)."""
         import resource
-        h = self.build_harness()
+        h = self.build_harness(race=race)
+        env = dict(os.environ)
+        if race:
+            env["GORACE"] = "halt_on_error=1 exitcode=66"
+            mem_kb = None        # the race runtime reserves terabytes of address space
         out = os.path.join(self.scratch, out_name or ("%s.ndjson" % driver))
         if os.path.exists(out):
             os.remove(out)
         frm, aborts, t = 0, 0, time.time()
         only = "-only" in [str(a) for a in args]
-        for _restart in range(30):
+        for _restart in range(max_aborts + 1):
             cmd = [h, driver, "-seed", str(self.seed if seed is None else seed), "-tier", self.tier, "-out", out,
                    "-append", "-from", str(frm)] + [str(a) for a in args]
             try:
-                p = subprocess.run(cmd, capture_output=True, text=True, timeout=timeout,
-                                   preexec_fn=lambda: resource.setrlimit(resource.RLIMIT_AS, (mem_kb * 1024, mem_kb * 1024)))
+                pre = (lambda: resource.setrlimit(resource.RLIMIT_AS, (mem_kb * 1024, mem_kb * 1024))) if mem_kb else None
+                p = subprocess.run(cmd, capture_output=True, text=True, timeout=timeout, env=env, preexec_fn=pre)
             except subprocess.TimeoutExpired:
                 raise ToolError("worker %s exceeded its watchdog (%ss) - too slow or hung; not judged" % (driver, timeout))
             if p.returncode == 0:
@@ -130,8 +146,7 @@ class Check:
             frm = last["case"] + 1
             if only:
                 break
-        else:
-            raise ToolError("worker %s died too often" % driver)
+        # (more than max_aborts aborts: the rest of the cases is not run; the aborts recorded are judged)
         return out, {"worker_aborts": aborts, "_wall_s": round(time.time() - t, 2)}
 
     def run_harness(self, driver, args, out_name=None, timeout=1800, seed=None, env=None):
@@ -224,12 +239,12 @@ class Check:
 
     def trace(self, label, driver, dargs, module, cfg, props, agree=(), files_extra=(), timeout=1800,
               nontrivial=None, key=None, driver_env=None, trace_path=None, stats=None, workers=16, heap="12g",
-              consts_extra=None, worker=False):
+              consts_extra=None, worker=False, race=False):
         """Go -> TLC: run a driver against the real code, then let TLC check every recorded event.
         props: invariants whose failure is a violation of the property; agree: invariants whose failure
         alone is model drift. Returns the list of events."""
         if trace_path is None and worker:
-            trace_path, stats = self.run_worker(driver, dargs, out_name="%s.ndjson" % label)
+            trace_path, stats = self.run_worker(driver, dargs, out_name="%s.ndjson" % label, race=race)
         if trace_path is None:
             trace_path, stats = self.run_harness(driver, dargs, out_name="%s.ndjson" % label, env=driver_env)
         events = [json.loads(x) for x in open(trace_path)]
@@ -237,6 +252,12 @@ class Check:
             raise ToolError("%s: driver %s produced no events" % (label, driver))
         self._sample(events, nontrivial, key)
         masked = set()
+        stateful = "ChunkSize" not in open(os.path.join(VERIF, "spec", cfg)).read()
+
+        def mask(e2):
+            if stateful:     # a history is validated as a whole: the event stays, its verdict is waived
+                return dict(e2, masked=True)
+            return {"ev": "masked", "case": e2.get("case"), "driver": e2.get("driver")}
         # property invariants first, then (separately) the model-agreement invariants
         for phase, invs in (("prop", list(props)), ("agree", list(agree))):
             if not invs:
@@ -270,14 +291,14 @@ class Check:
                     for k, e2 in enumerate(events):
                         if k != r.line - 1 and all(e2.get(a) == b for a, b in kf.get("match", {}).items()):
                             masked.add(k + 1)
-                            events[k] = {"ev": "masked", "case": e2.get("case"), "driver": e2.get("driver")}
+                            events[k] = mask(e2)
                 else:
-                    self.confirm(label, driver, dargs, module, cfg, r.violated, ev, driver_env, worker)
+                    self.confirm(label, driver, dargs, module, cfg, r.violated, ev, driver_env, worker, race)
                     if len(self.violations) >= 3:
                         break
                 # mask the event and carry on with the rest of the trace
                 masked.add(r.line)
-                events[r.line - 1] = {"ev": "masked", "case": ev.get("case"), "driver": ev.get("driver")}
+                events[r.line - 1] = mask(ev)
                 with open(trace_path, "w") as f:
                     for e in events:
                         f.write(json.dumps(e) + "\n")
@@ -312,10 +333,11 @@ class Check:
             self.known.append(line)
             print(line, flush=True)
 
-    def confirm(self, label, driver, dargs, module, cfg, inv, ev, driver_env=None, worker=False):
+    def confirm(self, label, driver, dargs, module, cfg, inv, ev, driver_env=None, worker=False, race=False):
         """Re-execute the single failing case against a fresh build and let TLC judge it again."""
         rp = self.replay_record(label, driver, dargs, module, cfg, inv, ev, driver_env)
         rp["worker"] = worker
+        rp["race"] = race
         ok, why = run_replay(self, rp)
         if ok is True:
             path = self.save_replay(rp)
@@ -327,12 +349,23 @@ class Check:
                             % (label, driver, ev.get("case"), why))
 
     def replay_record(self, label, driver, dargs, module, cfg, inv, ev, driver_env=None):
-        return dict(property=self.pid, stage=label, driver=driver, driver_args=[str(a) for a in dargs],
+        dargs = [str(a) for a in dargs]
+        table, case = None, ev.get("case")
+        if "-in" in dargs:
+            # make the replay self-contained: embed the case table (or just the one case) the driver reads
+            pth = dargs[dargs.index("-in") + 1]
+            lines = open(pth).read().splitlines()
+            if driver == "hsms-enum" or len(lines) <= 300:
+                table = lines
+            else:
+                table, case = [lines[case]], 0
+            dargs[dargs.index("-in") + 1] = "@TABLE@"
+        return dict(table=table, replay_case=case,property=self.pid, stage=label, driver=driver, driver_args=[str(a) for a in dargs],
                     seed=ev.get("seed", self.seed), case=ev.get("case"), variant=ev.get("variant"),
                     module=module, cfg=cfg, invariant=inv, tier=self.tier, driver_env=driver_env or {}, event=ev)
 
     def save_replay(self, rp):
-        d = os.path.join(VERIF, "replays", self.pid)
+        d = os.path.join(os.environ.get("VERIF_REPLAY_DIR") or os.path.join(VERIF, "replays"), self.pid)
         os.makedirs(d, exist_ok=True)
         s = json.dumps(rp, sort_keys=True)
         if len(s) > 400000:   # keep replay files small: the case is regenerated from (driver, seed, case)
@@ -362,8 +395,9 @@ class Check:
         ev = dict(property_id=self.pid, tier=self.tier, seed=self.seed, level=self.level, coverage=cov,
                   assumptions=self.assumptions, wall_s=round(time.time() - self.t0, 2),
                   violations=len(self.violations))
-        os.makedirs(os.path.join(VERIF, "evidence"), exist_ok=True)
-        with open(os.path.join(VERIF, "evidence", "%s.json" % self.pid), "w") as f:
+        evdir = os.environ.get("VERIF_EVIDENCE_DIR") or os.path.join(VERIF, "evidence")
+        os.makedirs(evdir, exist_ok=True)
+        with open(os.path.join(evdir, "%s.json" % self.pid), "w") as f:
             json.dump(ev, f, indent=1)
         return 1 if self.violations else 0
 
@@ -385,9 +419,15 @@ def load_findings():
 def run_replay(ck, rp):
     """Re-executes one recorded case against the current /repo and asks TLC again.
     Returns (True, text) if TLC rejects it again, (False, text) if it is accepted now."""
-    args = list(rp["driver_args"]) + ["-only", str(rp["case"])]
+    args = list(rp["driver_args"])
+    if rp.get("table") is not None:
+        tp = os.path.join(ck.scratch, "replay-table.ndjson")
+        open(tp, "w").write("\n".join(rp["table"]) + "\n")
+        args = [tp if a == "@TABLE@" else a for a in args]
+    case = rp.get("replay_case", rp["case"])
+    args += ["-only", str(case)]
     if rp.get("worker"):
-        path, _ = ck.run_worker(rp["driver"], args, out_name="replay.ndjson", seed=rp["seed"])
+        path, _ = ck.run_worker(rp["driver"], args, out_name="replay.ndjson", seed=rp["seed"], race=rp.get("race", False))
     else:
         path, _ = ck.run_harness(rp["driver"], args, out_name="replay.ndjson", seed=rp["seed"], env=rp.get("driver_env"))
     events = [json.loads(x) for x in open(path)]
